@@ -9,6 +9,8 @@ from ..core import FUNC, call_attr, calls_in, const, dotted, is_const, kwarg, no
 from .c01 import _fmt_in
 
 EXPLANATION = [
+    'C02.reset-callers: the framing state of PacketParser (the fields reset() assigns) is reset or written only by __init__ and feed_data: no other method (set_packet_sink, ...) throws away the position in the stream.',
+    'C02.bounded-buffers: no transport hands packets over through a bounded deque / Queue (a full one drops or raises in a callback that only logs): every packet split out of the byte stream reaches the sink.',
     'C02.shared-state: no class of the anchored modules keeps per-instance state in an object shared by all instances (an empty mutable container or synchronisation object as class-level default that is read through self and not rebound in __init__, or as a dataclass field default); process-wide registries are listed by name.',
     'C02.feed-contained: the error the push parser reports for an unknown type byte cannot tear the transport down at any site that feeds it (same rule as C17.feed-contained), so subsequently fed well-formed data is framed.',
     'C02.info-table: HCI_PACKET_INFO[type] = (length size, length offset, format) equals position and width of the length field in '
@@ -180,6 +182,22 @@ def _anc(n):
         q = getattr(q, '_parent', None)
 
 
+def parser_reset_callers(ctx):
+    """The push parser's position in the stream (state, bytes_needed, partial packet) is reset only where a packet ends or the
+    stream is declared broken: __init__ and feed_data.  Attaching or replacing the sink is not such a point."""
+    R, p = ctx.r, ctx.p
+    rule = 'C02.reset-callers'
+    ci = p.cls('bumble.transport.common.PacketParser')
+    if ci is None:
+        R.bad(rule, 'bumble.transport.common.PacketParser', 'anchor missing')
+        return
+    state = {dotted(t)[5:] for n in walk_local(ci.methods['reset']) if isinstance(n, ast.Assign) for t in n.targets if (dotted(t) or '').startswith('self.')} if 'reset' in ci.methods else set()
+    callers = sorted(mn for mn, m in ci.methods.items() if mn != 'reset' and any(dotted(c.func) == 'self.reset' for c in calls_in(m)))
+    writers = sorted(mn for mn, m in ci.methods.items() if mn not in ('reset', 'feed_data', '__init__') and any(isinstance(n, (ast.Assign, ast.AugAssign)) and any((dotted(t) or '')[5:] in state for t in (n.targets if isinstance(n, ast.Assign) else [n.target])) for n in walk_local(m)))
+    R.check(bool(state) and set(callers) <= {'__init__', 'feed_data'} and not writers, rule, 'bumble.transport.common.PacketParser | framing state',
+            f'{sorted(state)} reset only from {callers}', f'the framing state is reset / written from {sorted(set(callers) - {"__init__", "feed_data"}) + writers}: a consumer attached between two chunks of a packet makes the rest of that packet be framed as a new one', p.loc(ci.node))
+
+
 def usb_splitters(ctx):
     R, p = ctx.r, ctx.p
     rule = 'C02.usb-splitters'
@@ -264,7 +282,14 @@ def shared_state_rule(ctx):
     shared_state(ctx, 'C02.shared-state', ['bumble.transport'])
 
 
+def bounded_buffers_rule(ctx):
+    from .. import generic_rules as g
+    g.bounded_buffers(ctx, 'C02.bounded-buffers', ['bumble.transport.common', 'bumble.transport.usb', 'bumble.transport.pyusb', 'bumble.transport.tcp_server', 'bumble.transport.tcp_client', 'bumble.transport.ws_server', 'bumble.transport.ws_client', 'bumble.transport.udp', 'bumble.transport.unix', 'bumble.transport.serial', 'bumble.transport.hci_socket', 'bumble.transport.vhci'])
+
+
 RULES = [
+    ('C02.reset-callers', parser_reset_callers),
+    ('C02.bounded-buffers', bounded_buffers_rule),
     ('C02.shared-state', shared_state_rule),
     ('C02.feed-contained', feed_contained),
     ('C02.info-table', info_table),
